@@ -93,8 +93,23 @@ pub fn run_parse(req: &J) -> J {
       o["events"] = json!(ev.iter().map(|(s, i, c, l)| json!([s, i, c, l])).collect::<Vec<_>>());
     }
   }
-  // graphemes as the parser sees the source (init_source appends a newline)
-  o["nlines"] = json!(text.split('\n').count());
+  // the source as the parser sees it (init_source appends a newline): display width of every line
+  {
+    let gs = mech_syntax::graphemes::init_source(text);
+    let mut lw: Vec<usize> = vec![0];
+    let n = gs.len();
+    for (i, g) in gs.iter().enumerate() {
+      if mech_syntax::graphemes::is_new_line(g) {
+        if i + 1 < n {
+          lw.push(0);
+        }
+      } else {
+        *lw.last_mut().unwrap() += mech_syntax::graphemes::width(g);
+      }
+    }
+    o["lw"] = json!(lw);
+    o["ng"] = json!(n);
+  }
   o
 }
 
